@@ -139,7 +139,7 @@ theorem start_timer_by_effective_duration (c : Cfg) (s : St) (q : String) (tev :
     (effDur c q item = .none → startTimer c s q tev item = s.fail .circuitError) ∧
     (effDur c q item = .bad → startTimer c s q tev item = s.fail .valueError) ∧
     (effDur c q item = .inf → startTimer c s q tev item = s) ∧
-    (∀ n, effDur c q item = .us n → n ≤ 0 → startTimer c s q tev item = (post c s tev {}).1) ∧
+    (∀ n, effDur c q item = .us n → n ≤ 0 → startTimer c s q tev item = (eventRec c s tev {}).1) ∧
     (∀ n, effDur c q item = .us n → 0 < n → s.stopped = false → live s = [] →
       live (startTimer c s q tev item) =
         [{ id := s.nextId, when := s.now + n.toNat, ev := tev, epoch := s.epoch }]) := by
